@@ -24,9 +24,18 @@ def containment_guard(f):
     for st in flat(f.node.body):
         if isinstance(st, ast.Assign) and isinstance(st.targets[0], ast.Name):
             defs[st.targets[0].id] = st.value
+    def has_sink(node):
+        return any(isinstance(n, ast.Call) and (dotted(n.func) in SINKS or dotted(n.func) == "tempfile.mkdtemp") for n in ast.walk(node))
     for st in flat(f.node.body):
-        if not (isinstance(st, ast.If) and st.body and isinstance(st.body[-1], ast.Raise)) or st.lineno > first_sink:
+        # guards count only while no filesystem sink has been passed (statement order, not line numbers: expanded helpers keep their own lines)
+        raising = isinstance(st, ast.If) and ((st.body and isinstance(st.body[-1], ast.Raise)) or (st.orelse and isinstance(st.orelse[-1], ast.Raise)))
+        if not raising:
+            if has_sink(st) and not isinstance(st, ast.If):
+                break
             continue
+        if st.orelse and isinstance(st.orelse[-1], ast.Raise) and not (st.body and isinstance(st.body[-1], ast.Raise)):
+            # positive form `if <ok>: REST else: raise`: read it as the guard `if not <ok>: raise`
+            st = ast.copy_location(ast.If(test=ast.UnaryOp(op=ast.Not(), operand=st.test), body=st.orelse, orelse=[]), st)
         t = unparse(st.test)
         names = {x.id for x in ast.walk(st.test) if isinstance(x, ast.Name)}
         srcs = set(names)
